@@ -89,8 +89,15 @@ class HTMLTokenizer(object):
             charStack.append(c)
             c = self.stream.char()
 
-        # Convert the set of characters consumed to an int.
-        charAsInt = int("".join(charStack), radix)
+        # Convert the set of characters consumed to an int.  Leading zeros do
+        # not matter, and anything with more than eight significant digits is
+        # beyond U+10FFFF in either radix (int() itself refuses very long
+        # decimal strings).
+        significant = "".join(charStack).lstrip("0")
+        if len(significant) > 8:
+            charAsInt = 0x110000
+        else:
+            charAsInt = int(significant or "0", radix)
 
         # Certain characters get replaced with others
         if charAsInt in replacementCharacters:
